@@ -196,7 +196,7 @@ func (m *Model) Apply(op Op, defVal string) {
 		m.sd[op.Key] = 2
 	case "delrange":
 		m.delPointsIn(op.Key, op.End)
-	case "logdata", "flush", "compact", "nop":
+	case "logdata", "flush", "compact", "nop", "hold", "release":
 	case "rkset":
 		for i := m.idx(op.Key); i < m.idx(op.End); i++ {
 			if m.RK[i] == nil {
